@@ -407,6 +407,13 @@ impl<'r> G<'r> {
                 let n = self.rng.range(1, 3);
                 let mut lines = Vec::new();
                 for i in 0..n {
+                    if i > 0 && self.rng.chance(1, 4) {
+                        // a bare `//` inside the block: a paragraph break, not the end of the block
+                        self.put("//");
+                        self.nl();
+                        lines.push(String::new());
+                        self.p.features.push("doc:bare-comment-line-inside-block");
+                    }
                     let mut l = format!("doc line {} of {}", i + 1, self.counter);
                     if self.cfg.non_ascii && self.rng.chance(1, 3) {
                         l.push(' ');
